@@ -95,9 +95,15 @@ func genC15(t *rapid.T) C15Pair {
 	}
 	c.Gen = "G" + genSafe(t, "gen", 0, 6)
 	nExtra := rapid.IntRange(0, 3).Draw(t, "n_extra")
-	letters := "ABCDEFHIJKLMNOPQRSTUVWXYZ" // no G
+	// documented rules for extra items (snapshot.NameExtraItem): a capital letter, not G, no type twice; the order is free
+	letters := []byte("ABCDEFHIJKLMNOPQRSTUVWXYZ") // no G
 	for i := 0; i < nExtra; i++ {
-		c.Extra = append(c.Extra, string(letters[rapid.IntRange(0, len(letters)-1).Draw(t, "xt")])+genSafe(t, "xv", 0, 5))
+		k := rapid.IntRange(0, len(letters)-1).Draw(t, "xt")
+		if rapid.IntRange(0, 3).Draw(t, "xt_edge") == 0 {
+			k = []int{0, len(letters) - 1}[rapid.IntRange(0, 1).Draw(t, "xt_which")] // A / Z (or what is left)
+		}
+		c.Extra = append(c.Extra, string(letters[k])+genSafe(t, "xv", 0, 5))
+		letters = append(letters[:k:k], letters[k+1:]...)
 	}
 	c.TA = genNano(t, "ta")
 	switch rapid.IntRange(0, 4).Draw(t, "tb_kind") {
